@@ -5,6 +5,7 @@ import (
 	"flag"
 	"fmt"
 	"os"
+	"runtime/debug"
 	"sort"
 	"strconv"
 	"strings"
@@ -117,6 +118,9 @@ func runProp(id string, fn func(*Ctx), repo, verif, tier string, seed int) (code
 	func() {
 		defer func() {
 			if e := recover(); e != nil {
+				if os.Getenv("VERIF_PANIC") != "" {
+					os.Stderr.Write(debug.Stack())
+				}
 				rep.Unres("R00", "checker-panic", "", fmt.Sprint(e))
 			}
 		}()
